@@ -319,6 +319,9 @@ func check(args []string) int {
 		}
 		fmt.Printf("%s/%s: executions=%d states=%d transitions=%d validated=%d nontrivial=%d undecided=%d outcomes=%d violations=%d exhaustive=%v %s\n",
 			id, s.Name, s.Executions, s.States, s.Transitions, s.Validated, s.Nontrivial, s.Undecided, len(s.Outcomes), s.ViolationCount, s.Exhaustive, s.CapHit)
+		for _, k := range explore.SortedKeys(s.ViolationKeys) {
+			fmt.Printf("    violation key %q: %d cases\n", k, s.ViolationKeys[k])
+		}
 	}
 	fmt.Printf("%s %s: executions=%d states=%d transitions=%d violations=%d known=%d exhaustive=%v wall=%.1fs\n",
 		id, *tier, tot.exec, tot.states, tot.trans, totalViol, len(knownHit), exhaustive, wall)
@@ -431,6 +434,12 @@ func mergeSub(m, s *explore.SubStats) {
 	m.ViolationCount += s.ViolationCount
 	for k, v := range s.Outcomes {
 		m.Outcomes[k] += v
+	}
+	for k, v := range s.ViolationKeys {
+		if m.ViolationKeys == nil {
+			m.ViolationKeys = map[string]int64{}
+		}
+		m.ViolationKeys[k] += v
 	}
 	for k, v := range s.Max {
 		if v > m.Max[k] {
